@@ -83,6 +83,7 @@ def replay_one(job):
             # the comparison after the first update judges it)
             out.append((None, "optimizer_set_up", None))
         nrows = len(rows)
+        held = sim.opt_abs()
         for i, row in enumerate(rows):
             e = row["epoch"]
             if (e - 1) in rs:
@@ -91,13 +92,14 @@ def replay_one(job):
                 except Exception as ex:
                     bad("restart", "exception", "constructing a controller on the files after epoch %d raised %r" % (e - 1, ex))
                     return out
-                if sim.opt_abs() != at_start[e - 1]:
-                    if e > 1 and _tc.setup_of(rec["p"])[2]:
-                        # history file AND state directory: "reproduces ... the same ... learning rates"
-                        bad("restart", "optimizer_lr", "after restart at epoch %d the optimizer's groups hold %r = %r, specification: %r %s" % (
-                            e - 1, sim.opt_lrs(), sim.opt_abs(), at_start[e - 1], legend))
-                    else:  # from the history file alone nothing is loaded: what the new optimizer holds is not the property's
-                        out.append((None, "optimizer_set_up", None))
+                if e > 1 and _tc.setup_of(rec["p"])[2] and sim.opt_abs() != held:
+                    # history file AND state directory: "reproduces ... the same ... learning rates" - the groups hold what
+                    # they held when the states of the last epoch were saved (TrainCtl!Restart: optlr' = ckpt[last])
+                    bad("restart", "optimizer_lr", "after restart at epoch %d the optimizer's groups hold %r = %r; after the update of that epoch "
+                        "they held %r (specification: %r) %s" % (e - 1, sim.opt_lrs(), sim.opt_abs(), held, at_start[e - 1], legend))
+                elif sim.opt_abs() != at_start[e - 1]:
+                    # from the history file alone nothing is loaded: what the new optimizer holds is not the property's
+                    out.append((None, "optimizer_set_up", None))
                 if e > 1:
                     if sim.ctl.get_last_epoch() != e - 1:
                         bad("restart", "last_epoch", "get_last_epoch()=%r after restart, expected %d" % (sim.ctl.get_last_epoch(), e - 1))
@@ -116,6 +118,7 @@ def replay_one(job):
             want = _tc.row_as_csv(row, ENT)
             if not _close(info["lr"], want["lr"]):
                 bad("update_for_epoch", "lr_reduction", "epoch %d recorded lr %r, rule says %r" % (e, info["lr"], want["lr"]))
+            held = sim.opt_abs()
             prevk = rows[i - 1]["lrk"] if i else 0
             if row["lrk"] != prevk or std:
                 # the rate was reduced: "writes the new rate into the optimizer", every group (standard set-up: the
@@ -402,8 +405,8 @@ def run(ctx):
     def foreign(rec):
         """a reduction hits a group that does not hold the recorded rate (own rate / new object nothing was loaded into)"""
         evs = rec["olog"]
-        return any(b["op"] == "update" and b["lrs"] != a["lrs"] and len(set(a["lrs"])) + len(set(b["lrs"])) > 2 or
-                   b["op"] == "update" and b["lrs"] != a["lrs"] and a["lrs"][0] != b["lrs"][0] - 1 for a, b in zip(evs, evs[1:]))
+        return any(b["op"] == "update" and b["lrs"] != a["lrs"] and any(x != b["lrs"][0] - 1 for x in a["lrs"])
+                   for a, b in zip(evs, evs[1:]))
 
     if not any(foreign(r) and r["p"]["SD"] == 0 and restarts_of(r) for r in optrecs) or \
             not any(foreign(r) and r["p"]["OG"] == 1 for r in optrecs):
